@@ -1,9 +1,9 @@
 CONSTANTS
   Variant = "code"
   AtomSet = "small"
-  MaxAtoms = 2
+  MaxAtoms = 1
   MaxParts = 3
-  Stride = 29
+  Stride = 1
 INIT XInit
 NEXT XNext
 INVARIANT Export
